@@ -203,6 +203,7 @@ class Lexer:
                     hex_str += self._advance()
                 if not hex_str:
                     raise JSSyntaxError("Invalid hex literal", line, col)
+                self._end_of_number(line, col)
                 return js_number(int(hex_str, 16))
             elif next_ch and next_ch in "oO":
                 # Octal
@@ -213,6 +214,7 @@ class Lexer:
                     oct_str += self._advance()
                 if not oct_str:
                     raise JSSyntaxError("Invalid octal literal", line, col)
+                self._end_of_number(line, col)
                 return js_number(int(oct_str, 8))
             elif next_ch and next_ch in "bB":
                 # Binary
@@ -223,6 +225,7 @@ class Lexer:
                     bin_str += self._advance()
                 if not bin_str:
                     raise JSSyntaxError("Invalid binary literal", line, col)
+                self._end_of_number(line, col)
                 return js_number(int(bin_str, 2))
             # Could be 0, 0.xxx, or 0e... - fall through to decimal handling
 
@@ -230,9 +233,10 @@ class Lexer:
         while self._current() and _is_digit(self._current()):
             self._advance()
 
-        # Decimal point
+        # Decimal point: it belongs to the number whether or not digits follow
+        # (1. is 1, 1.e3 is 1000, and 5..toString() calls a method of 5.)
         is_float = False
-        if self._current() == "." and _is_digit(self._peek()):
+        if self._current() == ".":
             is_float = True
             self._advance()  # .
             while self._current() and _is_digit(self._current()):
@@ -249,10 +253,18 @@ class Lexer:
             while self._current() and _is_digit(self._current()):
                 self._advance()
 
+        self._end_of_number(line, col)
         num_str = self.source[start : self.pos]
         if is_float:
             return float(num_str)
         return decimal_integer(num_str)
+
+    def _end_of_number(self, line: int, col: int) -> None:
+        """A numeric literal is not followed directly by an identifier or a
+        digit: 3in, 1.toString() and 0x1g are syntax errors."""
+        ch = self._current()
+        if ch and (ch.isalnum() or ch in "_$"):
+            raise JSSyntaxError("Identifier directly after number literal", line, col)
 
     def _read_identifier(self) -> str:
         """Read an identifier."""
